@@ -58,7 +58,17 @@ fn random_case<S: Shape>(r: &mut Rng, acc: &mut Acc, index: u64, verbose: bool) 
             }
         }
     }
-    let st = r.usize(5);
+    let mut st = r.usize(5);
+    // the largest finite repeat count: 2^32 cycles of 1/512 s or 1/64 s are over after 2^23 s / 2^26 s (both exact)
+    if r.chance(1, 10) {
+        if let Some(k) = (0..5).map(|d| (st + d) % 5).find(|k| spec.animated(*k)) {
+            st = k;
+            let t = &mut spec.states[k][0];
+            t.repeat = Rep::Times(u32::MAX);
+            t.cycle = *r.pick(&[1.0f32 / 512.0, 1.0 / 64.0]);
+            t.delay = *r.pick(&[0.0f32, 0.25]);
+        }
+    }
     case::<S>(&spec, st, r, acc, STREAM_RND, index, verbose);
 }
 
@@ -131,6 +141,8 @@ fn case<S: Shape>(spec: &AnimSpec, st: usize, r: &mut Rng, acc: &mut Acc, stream
         });
     }
     advs.push(1.0e6);
+    advs.push(1.0e8);
+    advs.push(1.0e10);
     ops.extend(advs.iter().map(|d| Op::Adv(*d)));
     let mut real = build_anim::<S>(spec);
     let mut model = MAnim::<S>::new(spec);
